@@ -1,4 +1,4 @@
-\* the implementation's algorithm (last writer wins, Remove deletes the points) on collision-free universes
+\* implementation's algorithm on collision-free universes; 3 hosts, 6 keys
 CONSTANTS Base = 3  KF_CollisionLastWriter = TRUE  KF_RemoveSizedByArgument = TRUE
   HostMap <- HostMap3  HiMax = 1  LoMax = 2  MaxPts = 2  CollisionFreeOnly = TRUE  Wide = FALSE
 SPECIFICATION Spec
